@@ -26,7 +26,7 @@ FlatFrames == {[t |-> "simple", s |-> x] : x \in Texts} \cup {[t |-> "error", s 
 \* arrays of the shapes commands and replies have, plus the empty array
 ArrElems == {[t |-> "bulk", b |-> <<97>>], [t |-> "bulk", b |-> <<CR, LF>>], [t |-> "bulk", b |-> <<>>],
              [t |-> "int", v |-> [neg |-> TRUE, digits |-> I64MinDigits]], [t |-> "null"],
-             [t |-> "simple", s |-> <<79, 75>>]}
+             [t |-> "simple", s |-> <<79, 75>>], [t |-> "simple", s |-> <<>>], [t |-> "error", s |-> <<>>]}
 Arrays == {[t |-> "array", items |-> <<>>]} \cup {[t |-> "array", items |-> <<a>>] : a \in ArrElems}
           \cup {[t |-> "array", items |-> <<a, b>>] : a, b \in ArrElems}
 Frames == FlatFrames \cup Arrays
